@@ -39,7 +39,8 @@ type HistResult struct {
 func RunHist(p *HistPlan, d *dev.Dev, identity func(lazyOK bool) (bool, string)) *HistResult {
 	res := &HistResult{}
 	// a source variable that is still nil is "not initialised yet" (lazy designs) as long as no
-	// NewMnemonic call with an accepted word count has run in this process
+	// NewMnemonic call has produced a mnemonic in this process (a first call that failed or panicked
+	// inside its one-off set-up may legitimately leave it nil)
 	newDone := false
 	checkID := func(at int) {
 		if !p.Identity {
@@ -70,8 +71,8 @@ func RunHist(p *HistPlan, d *dev.Dev, identity func(lazyOK bool) (bool, string))
 		}
 		o, h := Exec(op, armed)
 		res.Outcomes = append(res.Outcomes, o)
-		if op.K == "new" && op.N >= 12 && op.N <= 24 && op.N%3 == 0 {
-			newDone = true
+		if op.K == "new" && op.N >= 12 && op.N <= 24 && op.N%3 == 0 && o.IsNil && o.Panic == "" {
+			newDone = true // a mnemonic was produced: from now on the source variable must be the OS reader itself
 		}
 		if d != nil && op.K == "new" {
 			res.Delivered = append(res.Delivered, hex.EncodeToString(d.Delivered[start:]))
